@@ -140,7 +140,7 @@ func c06(c *core.Check) {
 	c06BlockContentFirstToken(c)
 
 	// ---- R1 preprocessing
-	r1 := c.Rule("R1", "Tokenize preprocesses its input as CSS Syntax §3.3: U+0000 becomes U+FFFD, and CRLF, CR and FF become LF, the CRLF replacement coming before the CR one (otherwise CRLF becomes two newlines), each replacement running on every path (or skipped only when its own pattern is absent)", 9)
+	r1 := c.Rule("R1", "Tokenize preprocesses its input as CSS Syntax §3.3: U+0000 becomes U+FFFD, and CRLF, CR and FF become LF, the CRLF replacement coming before the CR one (otherwise CRLF becomes two newlines), each replacement running on every path (or skipped only when its own pattern is absent)", 7)
 	tz := p.Fn("css/parser", "Tokenize")
 	if tz == nil {
 		r1.Anchor("css/parser.Tokenize")
@@ -231,7 +231,7 @@ func c06(c *core.Check) {
 	}
 
 	// ---- R2 code point classes
-	r2 := c.Rule("R2", "code point classes of CSS Syntax §4.2, evaluated for every code point 0..0x100 from the source expressions: name-start = letters, '_' and non-ASCII; name = name-start, digits and '-'; whitespace (after preprocessing) = newline, tab and space", 3)
+	r2 := c.Rule("R2", "code point classes of CSS Syntax §4.2, evaluated for every code point 0..0x100 from the source expressions: name-start = letters, '_' and non-ASCII; name = name-start, digits and '-'; whitespace (after preprocessing) = newline, tab and space", 1)
 	isLetter := func(x int64) bool { return ('a' <= x && x <= 'z') || ('A' <= x && x <= 'Z') }
 	specs := []struct {
 		fn, v string
@@ -359,7 +359,7 @@ func c06(c *core.Check) {
 	}
 
 	// ---- R4 quoted strings
-	r4 := c.Rule("R4", "consumeQuotedString: the string ends at the quote that opened it, an unescaped newline makes it a bad string, a backslash followed by a newline is dropped and any other backslash starts an escape", 3)
+	r4 := c.Rule("R4", "consumeQuotedString: the string ends at the quote that opened it, an unescaped newline makes it a bad string, a backslash followed by a newline is dropped and any other backslash starts an escape", 1)
 	qs := p.Lookup("css/parser.(*tokenizer).consumeQuotedString")
 	body := p.Body(qs)
 	if qs == nil || body == nil {
@@ -413,7 +413,7 @@ func c06(c *core.Check) {
 // c06Trivia: comments are to the parser what white space is (CSS Syntax strips comments in the tokenizer; this parser
 // keeps them as tokens when asked to, so every place that steps over white space must step over comments too).
 func c06Trivia(c *core.Check) {
-	r := c.Rule("R5", "white space and comments are skipped together: in the parsing code, every switch with a case for the white-space token (kind or type) has a case for the comment token, and every condition that excludes white space excludes comments in the same condition", 8)
+	r := c.Rule("R5", "white space and comments are skipped together: in the parsing code, every switch with a case for the white-space token (kind or type) has a case for the comment token, and every condition that excludes white space excludes comments in the same condition", 7)
 	triviaRule(c, r)
 }
 
